@@ -26,6 +26,7 @@ ToSet(s) == {s[i] : i \in 1..Len(s)}
 LId(x) == [ec |-> x.ec, em |-> x.em, tc |-> x.tc, seq |-> x.seq]
 LSt(x) == [ec |-> x.ec, em |-> x.em, tc |-> x.tc]
 LVal(x) == [id |-> LId(x.id), tag |-> x.tag]
+LVals(q) == {LVal(q[i]) : i \in 1..Len(q)}
 LOptVal(q) == IF Len(q) = 0 THEN Nil ELSE LVal(q[1])
 LGovEntry(e) == [tc |-> e.tc, seq |-> e.seq, val |-> LVal(e)]
 LNonGovEntry(e) == [seq |-> e.seq, val |-> LVal(e)]
@@ -72,6 +73,7 @@ Apply(ln) ==
       [] ln.ev = "StoreAcked"  -> StoreAcked(Trace[ResetLine(l)].a.ids, ln.a.vs)
       [] ln.ev = "Get"         -> Get(LId(ln.a.id))
       [] ln.ev = "Gap"         -> Gap(LSt(ln.a.st))
+      [] ln.ev = "GapBackfill" -> GapBackfill(LSt(ln.a.st), LVals(ln.a.fills), LVals(ln.a.served), ln.s.err # "")
       [] ln.ev = "GovBatch"    -> GovBatch(ToSet(ln.a.seqs))
       [] ln.ev = "NonGovBatch" -> NonGovBatch(LSt(ln.a.st), ToSet(ln.a.seqs))
       [] ln.ev = "Kill"        -> CrashTo(FoundAfter(l))
@@ -97,6 +99,11 @@ Matches(ln) ==
       [] ln.ev = "Gap"         -> /\ ln.s.err = "" /\ ~ln.s.badid
                                   /\ Len(ln.s.missing) = Cardinality(ToSet(ln.s.missing))
                                   /\ GapReportOK(ret.res, [missing |-> ToSet(ln.s.missing), first |-> ln.s.first, last |-> ln.s.last])
+      [] ln.ev = "GapBackfill" -> \/ ln.s.err # ""             \* the call may fail as a whole
+                                  \/ /\ ~ln.s.badid
+                                     /\ Len(ln.s.missing) = Cardinality(ToSet(ln.s.missing))
+                                     /\ BackfillReportOK(ret.pre, ret.filled,
+                                                         [missing |-> ToSet(ln.s.missing), first |-> ln.s.first, last |-> ln.s.last])
       [] ln.ev = "GovBatch"    -> /\ ln.s.err = ""
                                   /\ {LGovEntry(ln.s.entries[i]) : i \in 1..Len(ln.s.entries)} = ret.res
                                   /\ Len(ln.s.entries) = Cardinality(ret.res)
@@ -107,7 +114,9 @@ Matches(ln) ==
                                   /\ HeldOK(ln.s, 2)
       [] OTHER                 -> TRUE
 
-IsQuery(ln) == ln.ev \in {"Get", "Gap", "GovBatch", "NonGovBatch"}
+\* after a mismatch the trace goes on: queries change nothing, and a backfill call's effect on the store was taken from
+\* what the store really holds afterwards
+IsQuery(ln) == ln.ev \in {"Get", "Gap", "GovBatch", "NonGovBatch", "GapBackfill"}
 
 NextReset(i) ==
     LET later == {j \in (i + 1)..Len(Trace) : Trace[j].ev = "Reset"}
@@ -120,6 +129,7 @@ ShowSet(S) == {Show(x) : x \in S}
 Required ==
     CASE ret.op = "Get" -> [res |-> ShowVal(ret.res)]
       [] ret.op \in {"Gap", "GovBatch", "NonGovBatch"} -> [res |-> ret.res]
+      [] ret.op = "GapBackfill" -> [pre |-> ret.pre, filled |-> ret.filled]
       [] OTHER -> [op |-> ret.op]
 KillInfo(i) ==
     LET f == FoundAfter(i)
@@ -143,7 +153,9 @@ NotEnabled ==
     /\ ph = 0 /\ l <= Len(Trace)
     /\ ~ENABLED Apply(Trace[l])
     /\ Reject("the specification does not allow this step here",
-              IF Trace[l].ev = "Kill" THEN KillInfo(l) ELSE [up |-> up], NextReset(l))
+              IF Trace[l].ev = "Kill" THEN KillInfo(l)
+              ELSE IF Trace[l].ev = "GapBackfill" THEN [up |-> up, pre |-> SpecGap(LSt(Trace[l].a.st))]
+              ELSE [up |-> up], NextReset(l))
     /\ UNCHANGED vars
 
 LineOK == IF Trace[l].ev = "Reset" THEN TRUE ELSE Matches(Trace[l])
@@ -172,6 +184,7 @@ T_AckedReadBack == [][IsReset \/ AckedReadBackStep]_tvars
 T_NeverForeignRead == [][IsReset \/ NeverForeignReadStep]_tvars
 T_ViewsAgree == [][IsReset \/ ViewsAgreeStep]_tvars
 T_QueriesReadOnly == [][IsReset \/ QueriesReadOnlyStep]_tvars
+T_BackfillReportsPostGaps == [][IsReset \/ BackfillReportsPostGapsStep]_tvars
 
 Finished == (l = Len(Trace) + 1 /\ ph = 0) => PrintT(<<"FINISHED", ToJson([lines |-> Len(Trace), rejected |-> rej])>>)
 =============================================================================
